@@ -84,6 +84,9 @@ Setup makeSetup() {
   term("D3", Ty::integer());
   term("D4", Ty::set(Ty::set(X1)), VClass::props);   // a property-class term, e.g. defined as ℬ(X1)
   { rssem::Global g; g.type = ETy::L(); G["A1"] = g; }
+  // a second integral constant set and element-typed terms of both (only used by the traits family of the type-checker mode)
+  base("C2"); s.ref.traits["C2"] = rssem::Traits{ true, true, true };
+  term("D5", C1); term("D6", Ty::base("C2"));
   // F1[a∈ℬ(R1)] := a∪a  : ℬ(R1)
   { rssem::Global g; g.type = ETy::T(Ty::set(Ty::base("R1"))); g.args = { { "a", Ty::set(Ty::base("R1")) } };
     g.definition = mk(K::FuncDef, { mk(K::Arguments, { mk(K::ArgDecl, { leaf(K::Local, "a"), mk(K::Boolean, { leaf(K::Radical, "R1") }) }) }), mk(K::Union, { leaf(K::Local, "a"), leaf(K::Local, "a") }) });
@@ -183,7 +186,7 @@ bool containsCall(const Node& n) { if (n.k == K::FuncCall) return true; for (aut
 
 // ------------------------------------------------------------------------------------------------
 // C03
-std::vector<Node> arityFamily(); std::vector<Node> siblingFamily(); std::vector<Node> vclassFamily(); std::vector<Node> recursionFamily(); std::vector<Node> curated();
+std::vector<Node> arityFamily(); std::vector<Node> siblingFamily(); std::vector<Node> vclassFamily(); std::vector<Node> recursionFamily(); std::vector<Node> traitsFamily(); std::vector<Node> curated();
 void run_types(Ctx& c, const Setup& setup, const rsgen::Generator& gen, int depth) {
   ImplEnv env(setup);
   uint64_t i = 0;
@@ -246,7 +249,7 @@ void run_types(Ctx& c, const Setup& setup, const rsgen::Generator& gen, int dept
     if (i % 7919 == 5) c.rep.sample(rsast::render(T, RenderOpt{}).text + (modelOk ? "  :  " + mr.type.str() : "  :  ill-typed (" + mr.why + ")"));
     c.done();
   };
-  try { for (auto& n : arityFamily()) one(Node(n)); for (auto& n : siblingFamily()) one(Node(n)); for (auto& n : vclassFamily()) one(Node(n)); for (auto& n : recursionFamily()) one(Node(n)); for (auto& n : curated()) one(Node(n)); gen.scopeSkeletons(static_cast<int>(c.opt->num("scopebudget", 6)), one); gen.closedStream(depth, one); gen.imperativeChains(one, 2); streamDefinitions(gen, one); } catch (const StopEnumeration&) {}
+  try { for (auto& n : arityFamily()) one(Node(n)); for (auto& n : siblingFamily()) one(Node(n)); for (auto& n : vclassFamily()) one(Node(n)); for (auto& n : recursionFamily()) one(Node(n)); for (auto& n : traitsFamily()) one(Node(n)); for (auto& n : curated()) one(Node(n)); gen.scopeSkeletons(static_cast<int>(c.opt->num("scopebudget", 6)), one); gen.closedStream(depth, one); gen.imperativeChains(one, 2); streamDefinitions(gen, one); } catch (const StopEnumeration&) {}
 }
 
 
@@ -477,6 +480,25 @@ std::vector<Node> recursionFamily() {
   for (auto& i : inits) for (auto& st : steps) { texts.push_back("R{a:=" + i + " | " + st + "}"); texts.push_back("R{a:=" + i + " | 1=1 | " + st + "}"); texts.push_back("R{a:=" + i + " | card(a)<2 | " + st + "}"); }
   std::vector<Node> out; rl::Parser p;
   for (auto& t : texts) { if (!p.Parse(t, rl::Syntax::MATH)) { fprintf(stderr, "HARNESS-ASSERT: recursion-family text does not parse: %s\n", t.c_str()); exit(2); } out.push_back(fromImplTree(p.AST().Root())); }
+  return out;
+}
+
+// Traits family (added after a round-10 seed): two DIFFERENT integer-convertible constant sets, the integers and a nominal set meeting
+// in every position that compares or merges basic types (type checker only)
+std::vector<Node> traitsFamily() {
+  const std::vector<std::string> el = { "D5", "D6", "D3", "1", "D2" };          // elements of C1, C2, Z, Z, X1
+  const std::vector<std::string> st = { "C1", "C2", "Z", "X1" };
+  std::vector<std::string> texts;
+  for (auto& a : el) for (auto& b : el) {
+    for (const char* op : { "=", "\xE2\x89\xA0", "<", "\xE2\x89\xA4", "+", "-", "*" }) texts.push_back(a + op + b);
+    texts.push_back("{" + a + ", " + b + "}"); texts.push_back("(" + a + ", D2)=(" + b + ", D2)"); texts.push_back("{(" + a + ", 1)}\xE2\x88\xAA{(" + b + ", 1)}");
+    texts.push_back("F2[D2, X1]\xE2\x88\xAA{" + a + "}"); texts.push_back("R{a:=" + a + " | a+" + b + "}");
+  }
+  for (auto& a : el) for (auto& t : st) { texts.push_back(a + "\xE2\x88\x88" + t); texts.push_back("{" + a + "}\xE2\x8A\x86" + t); texts.push_back("card(" + t + ")+" + a); }
+  for (auto& t : st) for (auto& u : st) for (const char* op : { "=", "\xE2\x8A\x86", "\xE2\x88\xAA", "\xE2\x88\xA9", "\\", "\xC3\x97" }) texts.push_back(t + op + u);
+  for (auto& t : st) for (auto& u : st) { texts.push_back("F1[" + t + "]\xE2\x88\xAA" + u); texts.push_back("\xE2\x84\xAC(" + t + ")=\xE2\x84\xAC(" + u + ")"); texts.push_back("\xE2\x88\x80" "a\xE2\x88\x88" + t + " a\xE2\x88\x88" + u); }
+  std::vector<Node> out; rl::Parser p;
+  for (auto& t : texts) { if (!p.Parse(t, rl::Syntax::MATH)) { fprintf(stderr, "HARNESS-ASSERT: traits-family text does not parse: %s\n", t.c_str()); exit(2); } out.push_back(fromImplTree(p.AST().Root())); }
   return out;
 }
 
